@@ -660,20 +660,34 @@ PROPS["C19"] = dict(
 )
 
 PROPS["C01"] = dict(
-    lean_targets=["SJ.Props.C01", "SJ.Props.C01Iff", "SJ.Audit.C01"],
+    lean_targets=["SJ.Props.C01", "SJ.Props.C01Iff", "SJ.Props.C01Ap", "SJ.Audit.C01"],
     configs=dict(quick=["d", "ap", "rv"], thorough=["d", "ap", "rv", "fr", "po", "ud"]),
     gen_keys=["error.", "de."],
     rule=PARSE_RULE + " Accept/reject of the crate is compared with the model and with the independent recursive-descent "
          "recogniser + side conditions (Spec.Rec, Spec.Canon.sideConditions).",
     trusted_base=MACHINE_TB,
-    assumptions=["the byte-step machine does not implement the private-token reading of objects that Value's visitor applies under "
-                 "arbitrary_precision / raw_value (an object whose first key decodes to $serde_json::private::Number / ::RawValue is "
-                 "read as a Number / re-parsed RawValue): c01_accepts_iff is a theorem about the machine, which treats such objects as "
-                 "RFC 8259 does; the crate deviates on exactly these objects — generated (tag private-token), reported by the "
-                 "specification (valid JSON rejected) and listed as open findings C01-ap-private-number-token, "
-                 "C01-rv-private-rawvalue-token"],
-    partial=["arbitrary_precision / raw_value: objects whose first key is a private token are outside the machine model (open findings; the model "
-             "sides with RFC 8259, the crate does not)"],
+    assumptions=["two parser models: the byte-step machine Model.Machine (every configuration; sides with RFC 8259 on every object) and "
+                 "Model.MachineAp = the machine + the reading Value's visitor applies under arbitrary_precision to an object whose first "
+                 "key decodes to $serde_json::private::Number (value/de.rs visit_map / KeyClassifier, number.rs NumberFromString, "
+                 "Number::from_str, de.rs end_map). The correspondence run uses MachineAp for the Value target whenever the "
+                 "configuration has arbitrary_precision (0 disagreements, tag private-token included); c01_accepts_iff is a theorem "
+                 "about the machine, c01_ap_conservative transfers it to MachineAp on every input without a token first key, and "
+                 "c01_ap_token_object / c01_ap_token_language state what the crate does on the others. That behaviour deviates from "
+                 "the property (valid JSON rejected / misread) and stays listed as open finding C01-ap-private-number-token: the "
+                 "specification reports it (tightened signature: only the S lines with the outcomes the reading produces), the model "
+                 "now reproduces it",
+                 "raw_value: the analogous reading of $serde_json::private::RawValue (the string is re-parsed as JSON) is NOT modelled: "
+                 "open finding C01-rv-private-rawvalue-token, whose signature still covers the model disagreements on those inputs"],
+    partial=["c01_ap_accepts_iff (the accepted language of the faithful model under arbitrary_precision = RFC 8259 texts with the side "
+             "conditions in which every token-first object is { token : \"number literal\" }) states the shape clause on the BYTES "
+             "(Spec.PrivateToken.TokenObjectsShaped: every string literal that stands directly after a { - the lexical scan is "
+             "outside string literals there - and decodes to the token is followed by ws : ws \"number literal\" ws }), not on "
+             "the syntax tree (Spec.PrivateToken.TokenShaped); the equivalence of the two formulations on JSON texts is not proved "
+             "(it needs the unambiguity of the grammar). Tree-level formulations are proved for two families "
+             "(c01_ap_accepts_iff_partial): inputs in which no first key decodes to the token and documents that are themselves a "
+             "token-first object",
+             "raw_value: objects whose first key is the private RawValue token are outside both models (open finding; the models side "
+             "with RFC 8259, the crate does not)"],
     technique="Lean 4 theorem c01_accepts_iff: the byte-step machine accepts exactly an inductive RFC 8259 grammar plus the stated side "
               "conditions (completeness by induction on derivations, soundness by a zipper invariant over every step) + "
               "exhaustive-token differential run against the crate and an independent recogniser",
@@ -684,21 +698,44 @@ PROPS["C01"] = dict(
                "c01_empty_rejected, c01_leading_ws / c01_trailing_ws; with the converse c02_denotes this gives c01_accepts_iff "
                "(accept <=> JSON text + side conditions) and c19_skip_language (skipped content <=> JSON text). The crate's "
                "accept/reject on every token sequence up to length 3-4, depth profiles 126-130, documents and mutations is compared "
-               "with the model and with an independent recogniser.",
-    level_note="Trusted: Lean kernel + 3 standard axioms; extract.py (depth 128, whitespace set, literals regenerated); harness/driver; "
-               "the hand-written machine model validated by correspondence (0 disagreements over all sources/configs).",
+               "with the model and with an independent recogniser. Under arbitrary_precision (Props/C01Ap.lean, model "
+               "Model.MachineAp): c01_ap_conservative (no string literal directly after a { decodes to the Number token - a lexical "
+               "scan of the bytes, Spec.PrivateToken.hasTokenFirstKey - => the faithful model IS the machine: value, error code, "
+               "position; hence c01_ap_accepts_iff_tokenfree), c01_ap_number_from_str (Number::from_str accepts exactly the RFC 8259 "
+               "number literals), c01_ap_token_object (at any depth, after a first key equal to the token the run succeeds iff the "
+               "rest of the object is ws : ws string ws } with the string decoding to a number literal, and continues with that NUMBER "
+               "in place of the object; c01_ap_conservative_cst / c01_ap_complete_tokenfree: the same from the syntax tree - a JSON "
+               "text none of whose objects has a first key decoding to the token has no hit in the scan), c01_ap_token_language (a document that is such an object is accepted iff it has that shape; "
+               "its value is the number), c01_ap_token_value_not_string / _not_number / _extra_member / _eof (the specific errors: "
+               "serde's invalid type; Number::from_str's error with its own line and column; trailing comma / characters; EOF), "
+               "c01_ap_accepts_iff_partial; c01_ap_sound (EVERY input: what the faithful model accepts is an RFC 8259 text meeting the "
+               "side conditions - the token reading never admits non-JSON; by running MachineAp and the machine side by side: the "
+               "machine's control flow never inspects collected values, step1_eqv) and c01_ap_accepts_iff (the faithful model accepts "
+               "exactly the RFC 8259 texts meeting the side conditions in which every string literal directly after a { that decodes "
+               "to the token is followed by ws : ws \"number literal\" ws } - a clause on the bytes, mentioning neither model nor run; "
+               "c01_ap_accepts_iff_run: the same with the clause on the machine's run).",
+    level_note="Trusted: Lean kernel + 3 standard axioms; extract.py (depth 128, whitespace set, literals, number::TOKEN and the "
+               "fingerprints of KeyClassifier / visit_map / NumberFromString / end_map / Number::from_str regenerated); harness/driver; "
+               "the hand-written models Model.Machine and Model.MachineAp validated by correspondence (0 disagreements over all "
+               "sources/configs except the unmodelled raw_value token). The crate's reading of the private Number token is a "
+               "deviation from the property (open finding), now a theorem about the model instead of a gap of it.",
 )
 
 PROPS["C02"] = dict(
-    lean_targets=["SJ.Props.C02", "SJ.Props.C02Map", "SJ.Props.C06Int", "SJ.Props.C01Iff", "SJ.Audit.C02"],
+    lean_targets=["SJ.Props.C02", "SJ.Props.C02Map", "SJ.Props.C06Int", "SJ.Props.C01Iff", "SJ.Props.C01Ap", "SJ.Audit.C02"],
     configs=dict(quick=["d", "po", "ap"], thorough=["d", "po", "fr", "ap"]),
     gen_keys=["error.", "de."],
     rule=PARSE_RULE + " The returned Value (tagged tree: integers exact, floats as bit patterns, object keys in iteration order) "
          "is compared with the model and with the independent denotation Spec.Canon.canon of the recognised syntax tree.",
     trusted_base=MACHINE_TB,
-    assumptions=["float values are whatever the configured conversion returns: their accuracy is C07/C08, not C02"],
+    assumptions=["float values are whatever the configured conversion returns: their accuracy is C07/C08, not C02",
+                 "arbitrary_precision: the correspondence run uses Model.MachineAp (the machine + the private Number token reading of "
+                 "Value's visitor) for the Value target; c02_denotes / c02_value_is_canon are theorems about Model.Machine and transfer "
+                 "to MachineAp on every input without a token first key (c01_ap_conservative, c02_ap_value_is_canon_tokenfree)"],
     partial=["arbitrary_precision: an object whose first key is the private Number token and whose only value is a string holding a number "
-             "is returned as that NUMBER (open finding C02-ap-private-number-token); the machine model returns the object the text denotes"],
+             "is returned as that NUMBER, not as the object the text denotes (open finding C02-ap-private-number-token: a genuine "
+             "deviation of the crate, reported by the specification; the faithful model reproduces it and c01_ap_token_language "
+             "states it: the value is .num (.lit txt))"],
     technique="Lean 4 theorems: objects built by sequential insertion = one entry per distinct key with the last value, sorted / "
               "first-occurrence order (mkObj = objectOf, both builds); the overflow! guard = mathematical comparison and integer "
               "classification of every digit string; completeness with value (C01) + value-level differential run",
@@ -992,7 +1029,7 @@ PROPS["C15"] = dict(
 )
 
 PROPS["C04"] = dict(
-    lean_targets=["SJ.Props.C04", "SJ.Audit.C04"],
+    lean_targets=["SJ.Props.C04", "SJ.Props.C04Ap", "SJ.Audit.C04"],
     configs=dict(quick=["d", "fr", "ap"], thorough=["d", "fr", "po", "ap", "rv"]),
     gen_keys=["ser.", "de.", "error."],
     rule="rtv: Values — a fixed corpus (boundary integers 0, +-1, +-2^53(+-1), i64::MIN/MAX, u64::MAX, powers of ten; every control "
@@ -1018,7 +1055,8 @@ PROPS["C04"] = dict(
          "is not bool / unit); distinct = distinct case lines.",
     trusted_base=[KERNEL, TIE,
                   "hand-written models Model.Ser (serializer, tied by C03's correspondence) and Model.Machine/Model.Num (parser, tied by "
-                  "C01/C02's correspondence); here their composition is run against the crate's own round trip on every generated Value",
+                  "C01/C02's correspondence; under arbitrary_precision the driver parses with Model.MachineAp, the machine + the private "
+                  "Number token reading); here their composition is run against the crate's own round trip on every generated Value",
                   "itoa prints plain decimal digits; ryu prints finite floats as RFC 8259 numbers (ExtOK)"],
     assumptions=["itoa::Buffer::format prints the plain decimal digits of the integer (Ext.itoa = Spec.Number.decimal)",
                  "ryu::Buffer::format_finite prints an RFC 8259 number; that the configured parser maps this text back to the same double is "
@@ -1029,7 +1067,15 @@ PROPS["C04"] = dict(
                  "code outside /repo; Model.TypedSer.progOf transcribes the calls they make (serialize_struct / serialize_field / "
                  "serialize_*_variant / collect_seq / collect_map ...), and the harness op rtm (harness/src/c04m.rs: Dyn) makes exactly "
                  "these calls against the real serializer for generated (schema, value) pairs"],
-    partial=["typed clause: c04_typed_partial (compact) and c04_typed_pretty_partial (pretty, every whitespace indent) — for EVERY "
+    partial=["arbitrary_precision: c04_value_ap / c04_reparse_ap are theorems about Model.Machine; for the faithful model "
+             "Model.MachineAp (the machine + the private Number token reading; op rtv runs it: 0 disagreements) the theorem is "
+             "c04_ap_value (Props/C04Ap.lean): every well-formed Value in which no object has $serde_json::private::Number as its "
+             "first key in iteration order (Spec.PrivateToken.valueTokenFree) round-trips, compact and pretty, every source. The "
+             "excluded Values do not round-trip on the crate - open finding C04-ap-private-number-token - and not on the model "
+             "either: c04_ap_token_not_identity ({token:\"1\"} comes back as the number 1, {token:\"x\"} is rejected). "
+             "raw_value: the RawValue token is not modelled (open finding C04-rv-private-rawvalue-token, its signature covers the "
+             "model disagreements)",
+             "typed clause: c04_typed_partial (compact) and c04_typed_pretty_partial (pretty, every whitespace indent) — for EVERY "
              "schema of the serialisable universe (bool, twelve integer widths incl. every 128-bit value, f64, f32, char, String, byte "
              "buffers, unit / unit struct, Option, newtype, Vec, tuples of any length, maps with every key kind, structs, enums with "
              "unit / newtype / tuple (zero-length included) / struct variants, Value members) and every well-formed typed value (wfTVx: "
